@@ -354,6 +354,7 @@ package parquet
 //@   ensures[C08] err == nil ==> srcPos >= old(srcPos) + pg.Size
 // every page contributes exactly its num_values levels to each level list
 //@   ensures[C04] err == nil && f.repeated ==> #f.Reps - old(#f.Reps) == #f.Defs - old(#f.Defs)
+//@   ensures sameOrFresh(f.Defs) && sameOrFresh(f.Reps) && f.MaxLevels == old(f.MaxLevels)
 //@ loop (*OptionalField).DoRead#1
 //@   invariant[C04] f.repeated ==> #f.Reps - old(#f.Reps) == #f.Defs - old(#f.Defs)
 //@   invariant[C08] srcPos == old(srcPos) + nRead
@@ -361,10 +362,11 @@ package parquet
 
 //@ func (*OptionalField).Values
 //@   modifies nothing
+//@   ensures[C04,C01] res == cntEq(HA(f.Defs), off(f.Defs), #f.Defs, f.MaxLevels.Def)
 // C04: a page's non-null value count is taken over exactly the page's num_values
 // definition levels (the last bit-packed group of a level stream may be padded
 // with anything), and it is the number of levels equal to the maximum.
-//@ recfn cntEq(A array<int>, off int, n int, m int) int := ite(n <= 0, 0, cntEq(A, off, n - 1, m) + ite(A[off + n - 1] == m, 1, 0))
+//@ recfn[nat] cntEq(A array<int>, off int, n int, m int) int := ite(n <= 0, 0, cntEq(A, off, n - 1, m) + ite(A[off + n - 1] == m, 1, 0))
 //@ func (*OptionalField).valsFromDefs
 //@   modifies nothing
 //@   requires[C04] #defs == curNV || defs == f.Defs   // one page's levels, or the field's whole level list
@@ -375,25 +377,31 @@ package parquet
 // C04: booleans are unpacked page by page: after k pages exactly the bytes of those k pages
 // (ceil(count/8) each, whatever the counts) have been taken from the value bytes.
 //@ recfn boolBytes(A array<int>, off int, n int) int := ite(n <= 0, 0, boolBytes(A, off, n - 1) + (A[off + n - 1] + 7) / 8)
+//@ recfn sumN(A array<int>, off int, n int) int := ite(n <= 0, 0, sumN(A, off, n - 1) + A[off + n - 1])
 //@ func GetBools
 //@   verify[C04]
 //@   requires dyn(r) == typeid("*bytes.Buffer") && payload(r) != 0
 //@   free-requires forall k in 0..#pageSizes: pageSizes[k] >= 0
 //@   modifies obj(r), rd
 //@   ensures[C10] err == nil ==> (rfault ==> old(rfault))
+// ... and every page yields exactly its count of values
+//@   ensures[C04] err == nil ==> #res0 == sumN(HA(pageSizes), off(pageSizes), #pageSizes)
+// (the reader's []byte storage and the caller's []int never alias in Go; the verifier's heap merges them by SMT sort)
 //@ loop GetBools#1
+//@   free-invariant forall k in 0..#pageSizes: pageSizes[k] >= 0
 //@   invariant freshOrNil(out) && freshOrNil(data) && (rfault ==> old(rfault))
 //@   invariant[C04] 0 <= rangeindex + 1 && rangeindex + 1 <= #pageSizes && #data + boolBytes(HA(pageSizes), off(pageSizes), rangeindex + 1) == lastReadAll
+//@   invariant[C04] #out == sumN(HA(pageSizes), off(pageSizes), rangeindex + 1)
 //@ loop GetBools#2
 //@   invariant freshOrNil(out) && freshOrNil(data) && (rfault ==> old(rfault))
 //@   invariant[C04] 0 <= rangeindex$1 + 1 && rangeindex$1 + 1 < #pageSizes && #data + boolBytes(HA(pageSizes), off(pageSizes), rangeindex$1 + 2) == lastReadAll
+//@   invariant[C04] 0 <= rangeindex + 1 && rangeindex + 1 <= #chunk && 0 <= nVals && nVals <= 8 * (#chunk - (rangeindex + 1)) && (rangeindex + 1 < #chunk ==> nVals > 8 * (#chunk - (rangeindex + 1) - 1))
+//@   invariant[C04] #out + nVals == sumN(HA(pageSizes), off(pageSizes), rangeindex$1 + 2)
 //@ loop GetBools#3
 //@   invariant freshOrNil(out) && freshOrNil(data) && (rfault ==> old(rfault))
 //@   invariant[C04] 0 <= rangeindex$1 + 1 && rangeindex$1 + 1 < #pageSizes && #data + boolBytes(HA(pageSizes), off(pageSizes), rangeindex$1 + 2) == lastReadAll
-//@ func min
-//@   modifies nothing
-//@ func unpackBools
-//@   modifies nothing
+//@   invariant[C04] 0 <= rangeindex$2 + 1 && rangeindex$2 + 1 < #chunk && 0 < nVals && nVals <= 8 * (#chunk - (rangeindex$2 + 1)) && nVals > 8 * (#chunk - (rangeindex$2 + 1) - 1)
+//@   invariant[C04] 0 <= j && j <= m && m <= 8 && m <= nVals && (m == nVals || m == 8) && #out + nVals - j == sumN(HA(pageSizes), off(pageSizes), rangeindex$1 + 2)
 
 //@ func (*Metadata).Pages
 //@   requires m != nil
